@@ -181,7 +181,7 @@ def split_top(sx):
 
 # ---------------- memory: objects with byte dict (concrete offsets only in prototype)
 class Mem:
-    def __init__(s): s.objs={}; s.n=0; s.checks=[]
+    def __init__(s): s.objs={}; s.n=0; s.checks=[]; s.symload={}
     def alloc(s,size,name=None,init=None):
         s.n+=1; k=name or 'o%d'%s.n; s.objs[k]={'size':size,'bytes':{} if init is None else init,'ch':{}}; return Ptr(k,0)
     def _explode(s,o,off):
@@ -217,6 +217,8 @@ class Mem:
         if 'arr' in o:
             off=bv(p.off,64); s.checks.append((p.obj,off,nbytes,o['size'],'load'))
             return z3.Concat(*[z3.Select(o['arr'],off+k) for k in reversed(range(nbytes))])
+        if not is_c(p.off) and p.obj in s.symload:
+            s.checks.append((p.obj,p.off,nbytes,o['size'],'load')); return s.symload[p.obj](p.off,nbytes)
         if not is_c(p.off):
             # small concrete object, symbolic offset: ite-chain over the written, aligned offsets; extent recorded as a check
             s.checks.append((p.obj,p.off,nbytes,o['size'],'load'))
@@ -242,7 +244,7 @@ class Mem:
 
 # ---------------- interpreter
 class Interp:
-    def __init__(s,mod,mem=None): s.mod=mod; s.mem=mem or Mem(); s.tp=mod.tp; s.gl={}; s.steps=0; s.hooks={}; s.trace=[]; s.cut=None; s.pending_exc=None; s.fork={'prefix':[],'taken':[],'pc':[],'pending':[],'queries':0}
+    def __init__(s,mod,mem=None): s.mod=mod; s.mem=mem or Mem(); s.tp=mod.tp; s.gl={}; s.steps=0; s.hooks={}; s.trace=[]; s.cut=None; s.intr_hooks={}; s.pending_exc=None; s.fork={'prefix':[],'taken':[],'pc':[],'pending':[],'queries':0}
     # ---- forking by re-execution: decisions are replayed from a prefix, new ones are explored DFS
     def decide(s,c):
         cs=z3.simplify(c)
@@ -354,8 +356,10 @@ class Interp:
                 m=re.match(r'(%[\w.$-]+) = phi (.*)$',l)
                 if not m: break
                 t,i=s.tp.parse(m.group(2)); rest=m.group(2)[i:]
-                for mm in re.finditer(r'\[\s*([^,\]]+),\s*%([\w.$-]+)\s*\]',rest):
-                    if mm.group(2)==prev: newv[m.group(1)]=s.operand(env,t,mm.group(1)); break
+                for item in split_top(rest):
+                    item=item.strip(); assert item[0]=='[' and item[-1]==']',item
+                    k=item.rindex(','); lab=item[k+1:-1].strip().lstrip('%')
+                    if lab==prev: newv[m.group(1)]=s.operand(env,t,item[1:k]); break
                 else: raise Exception('phi pred? '+l)
             env.update(newv)
             cut=getattr(s,'cut',None)
@@ -475,6 +479,8 @@ class Interp:
             return
         s.mem.store(p,v,t.size())
     def intrinsic(s,fn,args,rt):
+        for k,h in s.intr_hooks.items():
+            if fn.startswith(k): return h(s,args)
         if fn.startswith('llvm.eh.typeid.for'): return TYPEID(args[0].obj[1:] if isinstance(args[0],Ptr) and args[0].obj else 'null')
         if fn.startswith('llvm.lifetime') or fn.startswith('llvm.prefetch') or fn.startswith('llvm.assume'): return None
         if fn.startswith('llvm.memcpy') or fn.startswith('llvm.memmove'):
